@@ -37,6 +37,8 @@ type ChunkScenario struct {
 	Harness string    `json:"harness"`
 	Ops     []wire.Op `json:"ops"`
 	Lossy   bool      `json:"lossy,omitempty"` // entries are removed behind the handler's back: physical invariants are not demanded
+	// Faults: deviations of the backend, by request index on the handler's connection
+	Faults map[int]fakemc.Fault `json:"faults,omitempty"`
 }
 
 // ChunkOpts selects oracles.
@@ -201,6 +203,12 @@ func RunChunk(sc ChunkScenario, o ChunkOpts) *ChunkResult {
 	st := fakemc.NewStore("L1")
 	st.LogOn = true
 	conn := fakemc.NewConn(st, "L1#1")
+	if len(sc.Faults) > 0 {
+		conn.Faults = map[int]fakemc.Fault{}
+		for i, f := range sc.Faults {
+			conn.Faults[i] = f
+		}
+	}
 	h := chunked.NewHandler(conn)
 	m := refmodel.New(uint32(time.Now().Unix()))
 	touched := map[string]bool{}
